@@ -330,7 +330,8 @@ Covered(s, t) == (s.h + 1)..t.h
    simply accumulate the elapsed time *)
 ResetSeen(s, t, d) ==
   d \in DOMAIN s.sup /\ d \in DOMAIN t.sup
-  /\ t.sup[d].elapsed # s.sup[d].elapsed + (t.now - s.prev)
+  /\ \/ t.sup[d].elapsed # s.sup[d].elapsed + (t.now - s.prev)
+     \/ t.sup[d].tl < s.sup[d].tl      \* equal block times: only the counter shows the reset
 
 ParamsSame(s, t, d) ==
   d \in DOMAIN s.params /\ d \in DOMAIN t.params /\ s.params[d] = t.params[d]
@@ -591,6 +592,132 @@ C13_OnceOnTime(s, e, t, g) ==
 
 C13_NoHalt(e) == ~e.halt
 
+
+-----------------------------------------------------------------------------
+(***************************************************************************)
+(* DIAGNOSTIC clauses (X..): behaviour the specification fixes beyond the  *)
+(* text of C03 / C04 — asset life cycle, record contents, parameter        *)
+(* updates, genesis operators.  Reported, never part of a verdict.         *)
+(***************************************************************************)
+
+(* what a successful create recorded: the message's fields, expiry = height
+   + time lock, message-level admission (time-lock range, recipient) *)
+X03_CreateRecord(s, e, t) ==
+  (e.name = "Create" /\ e.ok) =>
+    /\ e.lock >= s.minLock /\ e.lock <= s.maxLock
+    /\ e.to \notin s.blocked
+    /\ ValidAmt(e.amt)
+    /\ e.id \in Ids(t)
+    /\ LET c == t.htlc[e.id] IN
+       /\ c.expiry = s.h + e.lock
+       /\ c.transfer = e.transfer /\ c.ts = e.ts /\ c.sec = e.sec /\ c.lts = e.lts
+       /\ (~e.transfer) => c.dir = "none"
+
+(* asset life cycle at creation: supported, active, amount within the swap
+   range, the deputy on exactly one side (which fixes the direction), and for
+   outgoing transfers the asset's block-lock range and amount - fee >= minimum;
+   all judged by the parameters in force when the message executes *)
+X04_Admission(s, e, t) ==
+  (e.name = "Create" /\ e.ok /\ e.transfer /\ e.id \in Ids(t)) =>
+    LET d == OnlyDenom(e.amt)
+        a == e.amt[d] IN
+    /\ Cardinality(DOMAIN e.amt) = 1
+    /\ d \in DOMAIN s.params
+    /\ LET p == s.params[d] IN
+       /\ p.active
+       /\ a >= p.minAmt /\ a <= p.maxAmt
+       /\ TsValid(s, e.ts)
+       /\ \/ e.who = p.deputy /\ e.to # p.deputy /\ t.htlc[e.id].dir = "in"
+          \/ /\ e.who # p.deputy /\ e.to = p.deputy /\ t.htlc[e.id].dir = "out"
+             /\ e.lock >= p.minLock /\ e.lock <= p.maxLock
+             /\ a - p.fee >= p.minAmt
+
+(* transfers in flight are not affected by later changes of active, deputy,
+   swap range, lock range or fee: an outgoing one can always be claimed, an
+   incoming one whenever the asset is still supported and the limits admit it *)
+X04_InFlight(s, e) ==
+  (e.name = "Claim" /\ e.id \in Ids(s) /\ s.htlc[e.id].state = "open"
+     /\ s.htlc[e.id].transfer /\ RightSecret(s.htlc[e.id], e.sec)) =>
+    LET c == s.htlc[e.id]
+        d == OnlyDenom(c.amt)
+        a == c.amt[d] IN
+    IF c.dir = "out" THEN e.ok
+    ELSE (d \in DOMAIN s.params /\ d \in DOMAIN s.sup
+          /\ s.sup[d].cur + a <= s.params[d].limit
+          /\ (s.params[d].timeLimited => s.sup[d].tl + a <= s.params[d].tbl)) <=> e.ok
+
+(* a parameter update stores exactly the message's parameters (iff they are
+   valid) and touches nothing else: supply records outlive removed assets *)
+X04_ParamsStored(s, e, t) ==
+  (e.name = "UpdateParams") =>
+    /\ e.ok <=> ValidParams(s, e.params)
+    /\ e.ok => t = [s EXCEPT !.params = e.params]
+
+-----------------------------------------------------------------------------
+(***************************************************************************)
+(* Genesis at design level (diagnostic, X12): genesis.go ExportGenesis /    *)
+(* InitGenesis / PrepForZeroHeightGenesis, types/genesis.go ValidateGenesis *)
+(* and types/htlc.go HTLC.Validate as operators on the state.               *)
+(* Export writes the OPEN contracts, all supply records, the parameters and *)
+(* the previous block time — not the expiry queue, which InitGenesis        *)
+(* rebuilds from the contracts' expiration heights.  The zero-height        *)
+(* preparation rewrites expiry := expiry - height + 1 in the records (the   *)
+(* supplies and the previous block time are left as they are: the TODO in   *)
+(* PrepForZeroHeightGenesis).                                               *)
+(***************************************************************************)
+OpenIds(s) == {i \in Ids(s) : s.htlc[i].state = "open"}
+
+ExportG(s) ==
+  [htlcs |-> [i \in OpenIds(s) |-> s.htlc[i]], sup |-> s.sup, params |-> s.params, prev |-> s.prev]
+
+ZeroHeightG(s) ==
+  [ExportG(s) EXCEPT !.htlcs = [i \in OpenIds(s) |-> [s.htlc[i] EXCEPT !.expiry = @ - s.h + 1]]]
+
+(* the reason InitGenesis (ValidateGenesis first) refuses g, "" if accepted *)
+GenesisWhy(s, g) ==
+  LET H == DOMAIN g.htlcs
+      sumDir(dir, d) == SumOver([i \in H |-> IF g.htlcs[i].transfer /\ g.htlcs[i].dir = dir
+                                             THEN AmtOf(g.htlcs[i], d) ELSE 0], H)
+  IN
+  IF ~ValidParams(s, g.params) THEN "params"
+  ELSE IF \E i \in H : g.htlcs[i].expiry = 0 THEN "expiry0"
+  ELSE IF \E i \in H : g.htlcs[i].ts = 0 THEN "ts0"                          \* HTLC.Validate (F9)
+  ELSE IF \E i \in H : g.htlcs[i].transfer /\ OnlyDenom(g.htlcs[i].amt) \notin DOMAIN g.params
+    THEN "asset_not_found"                                                   \* ValidateLiveAsset (F26)
+  ELSE IF \E i \in H : g.htlcs[i].transfer /\ ~g.params[OnlyDenom(g.htlcs[i].amt)].active
+    THEN "asset_inactive"
+  ELSE IF \E d \in DOMAIN g.sup : g.sup[d].inc # sumDir("in", d) \/ g.sup[d].out # sumDir("out", d)
+    THEN "supply_mismatch"
+  ELSE IF \E d \in DOMAIN g.sup : d \notin DOMAIN g.params THEN "supply_asset_not_found"  \* GetSupplyLimit panics
+  ELSE IF \E d \in DOMAIN g.sup :
+            LET l == g.params[d].limit IN
+            g.sup[d].cur > l \/ g.sup[d].inc > l \/ g.sup[d].inc + g.sup[d].cur > l \/ g.sup[d].out > l
+    THEN "over_limit"
+  ELSE ""
+
+ImportQueue(g) == {<<g.htlcs[i].expiry, i>> : i \in DOMAIN g.htlcs}
+
+(* the rebuilt expiry queue is the queue *)
+X12_HTLC_Queue(s) == ImportQueue(ExportG(s)) = s.q
+(* after the zero-height preparation every open contract is queued at
+   expiry - h + 1 >= 2: none is due before the new chain's second block, none
+   is lost (relative to the old chain every deadline moves by one block) *)
+X12_HTLC_ZeroQueue(s) ==
+  (~s.inBlock) =>
+    /\ DOMAIN ZeroHeightG(s).htlcs = OpenIds(s)
+    /\ \A x \in ImportQueue(ZeroHeightG(s)) : x[1] = s.htlc[x[2]].expiry - s.h + 1 /\ x[1] >= 2
+(* a state reached through valid transactions and parameter updates exports to
+   a genesis that InitGenesis accepts (as-is and zero-height alike: the
+   preparation only rewrites expiries) *)
+X12_HTLC_Accepted(s) == (~s.inBlock) => GenesisWhy(s, ExportG(s)) = ""
+(* the same modulo the recorded ways a reachable state is refused: F9 (open
+   contract without timestamp), F26 (asset removed: open transfer, or merely a
+   supply record without parameters), and their siblings established in
+   findings/htlc.md G1 (inactive asset with an open transfer, limit lowered
+   below the recorded supplies) *)
+KnownRefusals == {"", "ts0", "asset_not_found", "supply_asset_not_found", "asset_inactive", "over_limit"}
+X12_HTLC_Accepted_ModKnown(s) == (~s.inBlock) => GenesisWhy(s, ExportG(s)) \in KnownRefusals
+
 -----------------------------------------------------------------------------
 (* Model-checking universe *)
 CONSTANTS Users, Deputy, PlainDenoms, Assets, Templates, Locks, Dts,
@@ -620,6 +747,19 @@ ParamAltsFew == {ParamsB, ParamsC}
 ParamAltsOne == {("htltone" :> AP(2, FALSE, 0, 0, 1, 3, 0)), NoParams}
 ParamAltsTwo == {ParamsTwo, ("htlttwo" :> AP(3, TRUE, 3, 2, 1, 3, 1)), <<>>}
 
+(* asset life cycle (thorough configs): one asset, parameter sets that switch
+   it off, tighten the swap range / the lock range, raise the fee, change the
+   deputy — all with transfers in flight *)
+APx(limit, active, deputy, fee, minAmt, maxAmt, minLock, maxLock) ==
+  [limit |-> limit, timeLimited |-> FALSE, period |-> 0, tbl |-> 0,
+   active |-> active, deputy |-> deputy, fee |-> fee, minAmt |-> minAmt, maxAmt |-> maxAmt,
+   minLock |-> minLock, maxLock |-> maxLock]
+ParamsLife == ("htltone" :> APx(6, TRUE, "dep", 0, 1, 3, 1, 2))
+ParamAltsLife == {("htltone" :> APx(6, FALSE, "dep", 0, 1, 3, 1, 2)),     \* switched off
+                  ("htltone" :> APx(6, TRUE, "dep", 0, 2, 2, 2, 2)),      \* swap range and lock range tightened
+                  ("htltone" :> APx(6, TRUE, "dep", 1, 1, 3, 1, 2)),      \* fee raised
+                  ("htltone" :> APx(6, TRUE, "u2", 0, 1, 3, 1, 2))}       \* deputy changed
+
 TP(id, sender, to, amt, sec, lts, ts, transfer) ==
   [id |-> id, sender |-> sender, to |-> to, amt |-> amt, sec |-> sec,
    lts |-> lts, ts |-> ts, transfer |-> transfer]
@@ -642,6 +782,9 @@ TplPlainAsset == TP("c14", "u1", "u2", ("htltone" :> 1), "s2", T0, T0, FALSE) \*
 
 TplToMod   == TP("c15", "u2", MOD, ("aaa" :> 1) @@ ("bbb" :> 2), "s2", T0, T0, FALSE)   \* H1: recipient = escrow
 TemplatesH1 == {TplMulti, TplSelf, TplToMod}
+TplIn1c    == TP("c16", "u2", "u1", ("htltone" :> 1), "s6", T0, T0, TRUE)    \* incoming once u2 is the deputy
+TplOut1c   == TP("c17", "u1", "u2", ("htltone" :> 2), "s7", T0, T0, TRUE)    \* outgoing once u2 is the deputy
+TemplatesLife == {TplIn1, TplOut1, TplIn1c, TplOut1c}
 TemplatesPlain == {TplMulti, TplSelf, TplOtherTs, TplSame}
 TemplatesPlainBig == {TplMulti, TplSelf, TplOtherTs, TplSame, TplBlocked}
 TemplatesOneBig == {TplIn1, TplIn1b, TplOut1, TplPlainAsset, TplBadTs, TplNoDep}
@@ -653,7 +796,8 @@ TemplatesGen == {TplMulti, TplSelf, TplOtherTs, TplSame, TplBlocked, TplIn1, Tpl
 
 Init0 ==
   [h |-> 1, now |-> 0, prev |-> 0, inBlock |-> FALSE,
-   minLock |-> 1, maxLock |-> SetMax(Locks \cup {1}), blocked |-> {BLK},
+   minLock |-> 1, maxLock |-> SetMax(Locks \cup {1}),
+   blocked |-> {BLK, MOD},      \* application wiring since /repo 20cb755 (before it: {BLK}, finding H1)
    htlc |-> EmptyF, q |-> {},
    sup |-> [d \in DOMAIN Params0 |-> ZeroSup],
    params |-> Params0,
@@ -732,6 +876,15 @@ Act_C03_ExactlyOnce_ModH1 == [][C03_ExactlyOnce_ModH1(st, ev', st', gh')]_vars
 Act_C04_Limit == [][C04_Limit(st, st', gh')]_vars
 Act_C04_Window == [][C04_Window(st, ev', st')]_vars
 Act_C13_OnceOnTime == [][C13_OnceOnTime(st, ev', st', gh')]_vars
+
+Act_X03_CreateRecord == [][X03_CreateRecord(st, ev', st')]_vars
+Act_X04_Admission == [][X04_Admission(st, ev', st')]_vars
+Act_X04_InFlight == [][X04_InFlight(st, ev')]_vars
+Act_X04_ParamsStored == [][X04_ParamsStored(st, ev', st')]_vars
+Inv_X12_HTLC_Queue == X12_HTLC_Queue(st)
+Inv_X12_HTLC_ZeroQueue == X12_HTLC_ZeroQueue(st)
+Inv_X12_HTLC_Accepted == X12_HTLC_Accepted(st)
+Inv_X12_HTLC_Accepted_ModKnown == X12_HTLC_Accepted_ModKnown(st)
 
 (* Design-level check that the error the begin blocker discards cannot
    occur: every due contract is open and its refund succeeds. *)
